@@ -125,30 +125,11 @@ func init() {
 		"(time.Time).Local": func(fr *frame, a []value) value { return a[0] },
 		"(time.Time).Round": func(fr *frame, a []value) value { return a[0] },
 		"(time.Time).In":    func(fr *frame, a []value) value { return a[0] },
-		"(time.Time).Year": func(fr *frame, a []value) value {
-			ns := timeNS(a[0])
-			if !isSym(ns) {
-				return concreteTime(a[0], "Year").Year()
-			}
-			// binary search over year boundaries (UTC), forking on the
-			// symbolic instant; instants of the clock model lie in 1970..2100
-			i := fr.i
-			lo, hi := 1970, 2100
-			for lo < hi {
-				mid := (lo + hi) / 2
-				b := time.Date(mid+1, 1, 1, 0, 0, 0, 0, time.UTC).UnixNano()
-				if i.truth("time.Year", binop(i, token.LSS, nil, ns, b)) {
-					hi = mid
-				} else {
-					lo = mid + 1
-				}
-			}
-			return lo
-		},
-		"(time.Time).Month": func(fr *frame, a []value) value { return int(concreteTime(a[0], "Month").Month()) },
-		"(time.Time).Day":   func(fr *frame, a []value) value { return concreteTime(a[0], "Day").Day() },
+		"(time.Time).Year":  func(fr *frame, a []value) value { return fr.i.dayOf(a[0], "Year").Year() },
+		"(time.Time).Month": func(fr *frame, a []value) value { return int(fr.i.dayOf(a[0], "Month").Month()) },
+		"(time.Time).Day":   func(fr *frame, a []value) value { return fr.i.dayOf(a[0], "Day").Day() },
 		"(time.Time).Hour":  func(fr *frame, a []value) value { return concreteTime(a[0], "Hour").Hour() },
-		"(time.Time).YearDay": func(fr *frame, a []value) value { return concreteTime(a[0], "YearDay").YearDay() },
+		"(time.Time).YearDay": func(fr *frame, a []value) value { return fr.i.dayOf(a[0], "YearDay").YearDay() },
 		"(time.Time).Format": func(fr *frame, a []value) value {
 			if isSym(timeNS(a[0])) {
 				return symMarker // only ever logged; comparing it aborts the path
@@ -809,4 +790,26 @@ func errorsIs(fr *frame, a []value) value {
 		err = next
 	}
 	return false
+}
+
+// dayOf returns (the start of) the UTC calendar day of an instant. For a
+// symbolic instant the day is found by binary search over day boundaries,
+// forking on the solver's answers (instants of the clock model lie in
+// 1970..2100), so calendar arithmetic stays concrete.
+func (i *interpreter) dayOf(t value, what string) time.Time {
+	ns := timeNS(t)
+	if !isSym(ns) {
+		return concreteTime(t, what)
+	}
+	const dayNS = int64(24 * time.Hour)
+	lo, hi := int64(0), int64(130*366) // day index since the epoch
+	for lo < hi {
+		mid := (lo + hi) / 2
+		if i.truth("time.day", binop(i, token.LSS, nil, ns, (mid+1)*dayNS)) {
+			hi = mid
+		} else {
+			lo = mid + 1
+		}
+	}
+	return time.Unix(0, lo*dayNS).UTC()
 }
